@@ -2,6 +2,7 @@ package c17
 
 import (
 	"fmt"
+	"math"
 	"math/rand"
 
 	"github.com/EliCDavis/polyform/math/trs"
@@ -11,7 +12,19 @@ import (
 
 // genScale draws a scale vector: uniform, non-uniform, mirrored, with a flat axis.
 func genScale(r *rand.Rand) (v3, string) {
-	switch r.Intn(8) {
+	special := []float64{0, negZero, 1, -1}
+	switch r.Intn(11) {
+	case 8: // all three exactly zero (signs of zero vary)
+		return v3{special[r.Intn(2)], special[r.Intn(2)], special[r.Intn(2)]}, "all-zero"
+	case 9, 10: // every component one of 0, -0, 1, -1
+		s := v3{special[r.Intn(4)], special[r.Intn(4)], special[r.Intn(4)]}
+		z := 0
+		for _, x := range s {
+			if x == 0 {
+				z++
+			}
+		}
+		return s, fmt.Sprintf("special-%dzero", z)
 	case 0:
 		return v3{1, 1, 1}, "one"
 	case 1:
@@ -35,6 +48,7 @@ type gTRS struct {
 	T         trs.TRS
 	t, s      v3
 	q         q4
+	rot       m3 // reference rotation (Rodrigues about the normalised axis when built from axis and angle)
 	qkind     string
 	skind     string
 	construct string
@@ -44,17 +58,23 @@ func genTRS(r *rand.Rand) gTRS {
 	g := genQuat(r)
 	s, sk := genScale(r)
 	t, _ := genVec(r, -3, 4)
-	if r.Intn(10) == 0 {
+	switch r.Intn(12) {
+	case 0:
 		t = v3{}
+	case 1: // signed zeros
+		t = v3{[]float64{0, negZero}[r.Intn(2)], []float64{0, negZero}[r.Intn(2)], []float64{0, negZero}[r.Intn(2)]}
+	case 2: // some components exactly zero
+		t[r.Intn(3)] = []float64{0, negZero}[r.Intn(2)]
 	}
-	out := gTRS{t: t, s: s, q: qOf(g.q), qkind: g.kind, skind: sk}
+	out := gTRS{t: t, s: s, q: qOf(g.q), rot: g.rotation(), qkind: g.kind, skind: sk}
+	ident := m3{{1, 0, 0}, {0, 1, 0}, {0, 0, 1}}
 	switch r.Intn(10) {
 	case 0:
 		out.T, out.construct = trs.Position(t.vec()), "Position"
-		out.s, out.q, out.skind, out.qkind = v3{1, 1, 1}, q4{0, 0, 0, 1}, "one", "identity"
+		out.s, out.q, out.skind, out.qkind, out.rot = v3{1, 1, 1}, q4{0, 0, 0, 1}, "one", "identity", ident
 	case 1:
 		out.T, out.construct = trs.Scale(s.vec()), "Scale"
-		out.t, out.q, out.qkind = v3{}, q4{0, 0, 0, 1}, "identity"
+		out.t, out.q, out.qkind, out.rot = v3{}, q4{0, 0, 0, 1}, "identity", ident
 	case 2:
 		out.T, out.construct = trs.Rotation(g.q), "Rotation"
 		out.t, out.s, out.skind = v3{}, v3{1, 1, 1}, "one"
@@ -68,7 +88,7 @@ func genTRS(r *rand.Rand) gTRS {
 	return out
 }
 
-func (g gTRS) matrix() m4 { return trsMatrix(g.t, g.q, g.s) }
+func (g gTRS) matrix() m4 { return trsMatrixR(g.t, g.rot, g.s) }
 
 // refTransform applies T*R*S through the independent matrix; mag is the scale of the rounding error.
 func (g gTRS) refTransform(v v3) (out v3, mag float64) {
@@ -87,6 +107,9 @@ func trsCase(c *run.Ctx) run.Result {
 	}
 	if r.Intn(10) == 0 {
 		pts[0] = v3{}
+	}
+	if r.Intn(8) == 0 && vmaxabs(g.s) <= 10 { // vectors anywhere in the double range (products with the scale stay finite)
+		pts[n-1] = vscale(randUnit(r), pow10(r.Intn(611)-320))
 	}
 	in := g.construct + "/" + g.qkind + "/" + g.skind
 	wit := map[string]any{"position": g.t, "rotation_xyzw": g.q, "scale": g.s, "constructor": g.construct, "points": pts}
@@ -131,8 +154,8 @@ func trsCase(c *run.Ctx) run.Result {
 		return res
 	}
 
-	// accessors give back what the constructor was given
-	if accP != g.t || accS != g.s || accQ != g.q {
+	// accessors give back what the constructor was given, to the bit (signs of zero included)
+	if accP != g.t || accS != g.s || accQ != g.q || !sameBits(accP[:], g.t[:]) || !sameBits(accS[:], g.s[:]) || !sameBits(accQ[:], g.q[:]) {
 		res.Violate("accessor-mismatch", "TRS accessors ("+g.construct+")", in,
 			fmt.Sprintf("constructed with position %s scale %s rotation %s; accessors return %s %s %s", f3(g.t), f3(g.s), f4(g.q), f3(accP), f3(accS), f4(accQ)), wit)
 	}
@@ -142,7 +165,7 @@ func trsCase(c *run.Ctx) run.Result {
 		res.Count("trs_points", 1)
 		if e := vdist(single[i], want); !(e <= tol) {
 			// which order would explain it?
-			rot := quatMatrix(g.q)
+			rot := g.rot
 			alt := map[string]v3{
 				"S(R v)+T":    vadd(vmul(g.s, rot.apply(p)), g.t),
 				"R(S(v+T))":   rot.apply(vmul(g.s, vadd(p, g.t))),
@@ -182,10 +205,22 @@ func trsCase(c *run.Ctx) run.Result {
 	res.Sig = fmt.Sprintf("%s/%s/%s/t%d/a%d", g.construct, g.qkind, g.skind, decade(vmaxabs(g.t)), int(rotAngle(g.q)*4/3.2))
 	res.SetAdd("trs_constructors", g.construct)
 	res.SetAdd("trs_scale_kinds", g.skind)
+	if g.s == (v3{}) {
+		res.Count("trs_scale_exactly_zero", 1)
+	}
 	if c.Case < 8 {
 		res.Sample = map[string]any{"position": g.t, "rotation_xyzw": g.q, "scale": g.s, "v": pts[0], "transform_v": single[0]}
 	}
 	return res
+}
+
+func sameBits(a, b []float64) bool {
+	for i := range a {
+		if math.Float64bits(a[i]) != math.Float64bits(b[i]) {
+			return false
+		}
+	}
+	return true
 }
 
 func transpose3(m m3) (t m3) {
